@@ -78,4 +78,13 @@ CHECKS["C08"] = {
             "index j, the export of the truncated capture is, per direction, a byte-prefix of the export of the full capture.",
     "note": TRUST + "Models as in C01. TLS half of the property; the QUIC half is added with the QUIC harness.",
 }
+CHECKS["C10"] = {
+    "technique": "symbolic execution of main.handle_packet / Session / OutputBuilder / QuicSession.build_output / QUICOutputbuilder with symbolic ports, symbolic -p ports and a symbolic port map; real argparse on the syntax axis; main.run end to end with stub reader/writer",
+    "text": "For all 16-bit source/destination ports and -p ports z3 shows that a TCP session is created iff one side uses a default or "
+            "selected server port and that side becomes the server; for all server/client ports, all port maps within the bound and both "
+            "values of keep_original_ports every packet emitted by the TLS and the QUIC output builder carries original / mapped / 8080 "
+            "as server port and the unchanged client port. Every documented spelling of -m/-p goes through the real argparse, and "
+            "main.run is exercised end to end for representative option sets.",
+    "note": TRUST + "The port map is a solver-decided mapping object instead of a dict (same override order). Reader/writer/file system are stubs in the wiring harness.",
+}
 NOT_APPLICABLE = {}
